@@ -26,39 +26,51 @@ ExpVals(vs, next, acc) ==
   ELSE LET v == IF Head(vs).val # NumNone THEN Head(vs).val ELSE next
        IN ExpVals(Tail(vs), NumSucc(v), Append(acc, v))
 
+(* bases that are not primitive integers: other built-ins, a struct, an extern type, a pointer *)
+NonIntBases == {"bool", "f32", "S", "X", "ptr"}
+HelperS == TypeDef("S", "pub", <<Field("v", "pub", <<>>, TNm("u16"), None, FALSE)>>)
+
 MkInput(ptr, base, vals, mark, defaultable) ==
   LET n == Len(vals)
       vs == [i \in 1..n |-> Variant(VarNames[i], vals[i], mark = i \/ (mark = 9 /\ i <= 2))]
-      E == [EnumDef("E", "pub", TNm(base), vs) EXCEPT !.defaultable = defaultable, !.copyable = TRUE]
-  IN [ptr |-> ptr, mods |-> <<Module(<<"m">>, <<>>, <<E>>)>>]
+      bty == IF base = "ptr" THEN TCPtr(TNm("u8")) ELSE TNm(base)
+      E == [EnumDef("E", "pub", bty, vs) EXCEPT !.defaultable = defaultable, !.copyable = TRUE]
+  IN [ptr |-> ptr,
+      mods |-> <<[Module(<<"m">>, <<>>, <<E>> \o (IF base = "S" THEN <<HelperS>> ELSE <<>>))
+                   EXCEPT !.exts = IF base = "X" THEN <<ExtType("X", 4, 4)>> ELSE <<>>]>>]
 
 ValSeqs(base) == UNION {[1..n -> {v \in Boundary(base) : Spellable(v)}] : n \in 1..MaxVars}
 
 MCInit ==
-  /\ \E ptr \in Ptrs, base \in Bases, mark \in Markers, defaultable \in BOOLEAN :
-       \E vals \in ValSeqs(base) :
-          /\ mark \in {0, 9} \/ mark <= Len(vals)
-          /\ (mark = 9 => Len(vals) >= 2)
-          (* Rust (unlike C++) has no duplicate discriminants: outside the fragment *)
-          /\ LET e == ExpVals([i \in DOMAIN vals |-> Variant("x", vals[i], FALSE)], NumInt(0), <<>>)
-             IN \A i, j \in DOMAIN e : i # j => e[i] # e[j]
-          /\ input = MkInput(ptr, base, vals, mark, defaultable)
+  /\ \/ \E ptr \in Ptrs, base \in Bases, mark \in Markers, defaultable \in BOOLEAN :
+          \E vals \in ValSeqs(base) :
+             /\ mark \in {0, 9} \/ mark <= Len(vals)
+             /\ (mark = 9 => Len(vals) >= 2)
+             (* Rust (unlike C++) has no duplicate discriminants: outside the fragment *)
+             /\ LET e == ExpVals([i \in DOMAIN vals |-> Variant("x", vals[i], FALSE)], NumInt(0), <<>>)
+                IN \A i, j \in DOMAIN e : i # j => e[i] # e[j]
+             /\ input = MkInput(ptr, base, vals, mark, defaultable)
+     \/ \E ptr \in Ptrs, base \in NonIntBases, nv \in 1..2 :
+          input = MkInput(ptr, base, [i \in 1..nv |-> NumNone], 0, FALSE)
   /\ InitRest
 
 MCSpec == MCInit /\ [][Next]_vars /\ WF_vars(Next)
 
 (* ------------------------------ the oracle ----------------------------- *)
 EDef == input.mods[1].defs[1]
-EBase == EDef.base.n
+EBase == IF EDef.base.k = "nm" THEN EDef.base.n ELSE "ptr"
+NonIntBase == EBase \notin IntBases
 
 Expected == ExpVals(EDef.vars, NumInt(0), <<>>)
 
 MarkCount == Cardinality({i \in DOMAIN EDef.vars : EDef.vars[i].dflt})
-OutOfRange == \E i \in DOMAIN Expected : ~NumFits(EBase, Expected[i])
+OutOfRange == ~NonIntBase /\ \E i \in DOMAIN Expected : ~NumFits(EBase, Expected[i])
 Unparsable == \E i \in DOMAIN Expected : ~FitsIsize(Expected[i])
 MarkerMismatch == (EDef.defaultable /\ MarkCount = 0) \/ (~EDef.defaultable /\ MarkCount > 0)
-MustReject == OutOfRange \/ Unparsable \/ MarkerMismatch
+(* "represented as the declared integer base type": a base that is no integer type cannot be *)
+MustReject == OutOfRange \/ Unparsable \/ MarkerMismatch \/ NonIntBase
 
+KF_Base == ~CHECKENUMBASE /\ NonIntBase
 KF_Range == ~CHECKENUMRANGE /\ OutOfRange /\ ~Unparsable /\ ~MarkerMismatch /\ MarkCount <= 1
 
 Crate == [ptr |-> input.ptr, files |-> out, exts |-> ExtMap(input), real |-> <<>>]
@@ -87,7 +99,8 @@ ReplayRecord ==
    accepted |-> Accepted, err |-> err, pviol |-> IF Terminal THEN PViol ELSE {},
    oracle |-> [mustReject |-> MustReject, expected |-> Expected, base |-> EBase,
                defaultIdx |-> IF MarkCount = 1 THEN CHOOSE i \in DOMAIN EDef.vars : EDef.vars[i].dflt ELSE 0,
-               kf |-> IF KF_Range THEN <<"C08:discriminant-out-of-range", "C13:discriminant-out-of-range">> ELSE <<>>],
+               kf |-> IF KF_Base THEN <<"C08:non-integer-base", "C13:non-integer-base">>
+                      ELSE IF KF_Range THEN <<"C08:discriminant-out-of-range", "C13:discriminant-out-of-range">> ELSE <<>>],
    mirror |-> [reg |-> RegView, out |-> out]]
 
 Replay == Terminal => PrintT(<<"REPLAY", ToJson(ReplayRecord)>>)
